@@ -410,6 +410,28 @@ func (c *ctx) faults(p pre, o Op, o2 *Op) {
 			c.sec.Extra["single_faults_other_secret_first"]++
 			c.followUpOrder(p, []Op{o}, d3, m3, dir, rdir, faultDesc, replay, []Op{{Kind: "put", Name: "fresh", Value: "f"}, {Kind: "put", Name: "a", Value: "after-fault"}, {Kind: "put", Name: "a", Value: ""}})
 		}
+		// and once more with a cause that outlasts the failing step: from the faulted call on, every
+		// file-system call of the operation fails, reads of the live file included; it ends when the call returns
+		if pt.short == 0 {
+			m4 := build(dir, p)
+			d4, err := db.Open(filepath.Join(dir, "db"), kek, hx.Discard())
+			if err != nil {
+				panic(err)
+			}
+			r4 := fsx.NewRecorder(dir)
+			r4.Baseline()
+			r4.FaultAt, r4.FaultSticky = pt.at, true
+			vos.SetHook(r4)
+			_, e4 := apply(d4, o)
+			vos.SetHook(nil)
+			if r4.Fired && e4 != nil {
+				c.sec.Evaluations++
+				c.sec.Extra["lasting_faults"]++
+				c.followUpOrder(p, []Op{o}, d4, m4, dir, rdir, faultDesc+", and every later file-system call of the operation fails too", replay, []Op{{Kind: "put", Name: "fresh", Value: "f"}, {Kind: "put", Name: "a", Value: "after-fault"}})
+			} else if r4.Fired && e4 == nil {
+				c.fail("success-after-lasting-fault", p, []Op{o}, faultDesc+", and every later file-system call of the operation fails too: the call reported success", replay)
+			}
+		}
 	}
 }
 
@@ -556,7 +578,7 @@ func TestCheck(t *testing.T) {
 		}
 	}
 	fault := rep.Add(&report.Section{Name: "injected-faults", Engine: "fsx", Exhaustive: true, Extra: map[string]int64{},
-		Rule: "for each operation: an injected error at every mutating file-system call (writes also after a partial write), then fault pairs across two consecutive operations; after each: error reported, served state, write generation and file equal the pre-call state, later calls (in two orders: the failed call's own secret first, another secret first) and a restart after each match the model; non-trivial = runs in which the fault fired and the call failed"})
+		Rule: "for each operation: an injected error at every mutating file-system call (writes also after a partial write), then fault pairs across two consecutive operations; after each: error reported, served state, write generation and file equal the pre-call state, each single fault also as a lasting one (every later file-system call of the operation fails too, reads included); later calls (in two orders: the failed call's own secret first, another secret first) and a restart after each match the model; non-trivial = runs in which the fault fired and the call failed"})
 	c = &ctx{rep: rep, sec: fault, base: base}
 	c.faults(pre{name: "no-file"}, Op{Kind: "create"}, nil)
 	for _, p := range pres {
